@@ -20,10 +20,13 @@ import (
 // the receiver unchanged.
 
 type caseC03 struct {
-	Data    string  `json:"data"`               // hex of the byte string (for "coordinates": x||y, 64 bytes)
-	Decoder string  `json:"decoder"`            // decode | compressed | uncompressed | coordinates | hex | unmarshal
-	Text    string  `json:"text,omitempty"`     // literal string for the hex decoder
-	TextHex string  `json:"text_hex,omitempty"` // the same as hex of the raw bytes (strings that are not valid UTF-8 do not survive JSON)
+	Data    string `json:"data"`           // hex of the byte string (for "coordinates": x||y, 64 bytes)
+	Decoder string `json:"decoder"`        // decode | compressed | uncompressed | coordinates | hex | unmarshal
+	Text    string `json:"text,omitempty"` // literal string for the hex decoder
+	TextHex string `json:"text_hex,omitempty"`
+	// Huge > 0: the input is Data followed by zeros up to a total length of Huge bytes (2^32 + a valid length: what a length that
+	// is compared after a conversion to 32 bits lets through); 64-bit platforms only, backed by an untouched mapping
+	Huge    int64   `json:"huge,omitempty"` // the same as hex of the raw bytes (strings that are not valid UTF-8 do not survive JSON)
 	Prior   pt.Spec `json:"prior"`
 	Kind    string  `json:"kind"` // generator class, informational
 	Nil     bool    `json:"nilin,omitempty"`
@@ -298,6 +301,14 @@ var c03 = gen.Register(&gen.Check[caseC03]{
 			}
 			out = append(out, c)
 		}
+		// inputs of 2^32 (2^33) bytes plus a valid length
+		for _, dec := range []string{"decode", "unmarshal", "compressed", "uncompressed"} {
+			for _, head := range [][]byte{{0}, ref.Compress(g), ref.Uncompressed(g)} {
+				for _, base := range []int64{1 << 32, 1 << 33} {
+					out = append(out, caseC03{Data: hex.EncodeToString(head), Decoder: dec, Prior: prior, Kind: "huge", Huge: base + int64(len(head))})
+				}
+			}
+		}
 		// every byte value at a few positions of a valid hex string (what a hand-rolled hex digit test lets through)
 		for _, dec := range []string{"hex", "text"} {
 			txt := hex.EncodeToString(ref.Compress(g))
@@ -386,7 +397,44 @@ func TestC03Decoders(t *testing.T) { c03.Execute(t) }
 
 func isTextDec(dec string) bool { return dec == "hex" || dec == "text" || dec == "json" }
 
+func c03Huge(c caseC03, o *gen.Obs) error {
+	data, release := gen.Huge(c.Huge, gen.HexBytes(c.Data))
+	defer release()
+	if data == nil {
+		o.Class("skipped:no-huge-slices-here")
+		return nil
+	}
+	o.Class("input>=2^32")
+	o.NonTrivial()
+	prior, err := pt.Build(c.Prior)
+	if err != nil {
+		return nil
+	}
+	enc0 := prior.E.Encode()
+	var derr error
+	switch c.Decoder {
+	case "unmarshal":
+		derr = prior.E.UnmarshalBinary(data)
+	case "compressed":
+		derr = prior.E.DecodeCompressed(data)
+	case "uncompressed":
+		derr = prior.E.DecodeUncompressed(data)
+	default:
+		derr = prior.E.Decode(data)
+	}
+	if derr == nil {
+		return gen.Fail("Decode["+c.Decoder+"]/accepts-invalid:length", "%s accepted an input of %d bytes starting with %s", c.Decoder, c.Huge, c.Data)
+	}
+	if !bytes.Equal(prior.E.Encode(), enc0) {
+		return gen.Fail("Decode["+c.Decoder+"]/rejected-changes-receiver", "a rejected input of %d bytes changed the receiver", c.Huge)
+	}
+	return nil
+}
+
 func c03Once(c caseC03, o *gen.Obs) error {
+	if c.Huge > 0 {
+		return c03Huge(c, o)
+	}
 	if c.TextHex != "" {
 		c.Text = string(gen.HexBytes(c.TextHex))
 	}
